@@ -479,7 +479,7 @@ def _mreq(c):
 
 
 def run(run):
-    scale = int(os.environ.get("C02_SCALE", 1000 if run.thorough else 90))
+    scale = int(os.environ.get("C02_SCALE", 1000 if run.thorough else 70))
     run.rule = ('for each of %d operation entry points (every public operation method, instance-/class-level and '
                 'pull/traditional variants of the Iter* generators): valid responses built from pywbem objects of the '
                 'type-directed generator, CIM errors, 1-3 tree-level mutations (drop/duplicate/swap/rename element, '
